@@ -597,3 +597,405 @@ Proof.
   unfold is_period_str. rewrite Hc. rewrite split_join by (assumption || discriminate).
   cbn [nth andb]. reflexivity.
 Qed.
+
+(** * Printed date texts parse back *)
+
+Lemma parse_simple_ok_instant s q : parse_simple s = Ok q -> is_instant_str s = true.
+Proof.
+  unfold parse_simple, parse_instant. destruct (is_instant_str s); [reflexivity|]. cbn. discriminate.
+Qed.
+
+Lemma valid_bounds y m d : valid (y, m, d) -> 1 <= y /\ 1 <= m <= 12 /\ 1 <= d <= 31.
+Proof. intros H. apply valid_iff in H. pose proof (dim'_pos (leap y) m). lia. Qed.
+
+Lemma valid_first y m d : valid (y, m, d) -> validb (y, m, 1) = true.
+Proof.
+  intros H. apply valid_iff in H. apply (proj2 (valid_iff y m 1)). pose proof (dim'_pos (leap y) m). lia.
+Qed.
+
+Lemma d4_digit_hyps y : 0 <= y <= 9999 ->
+  is_digit (digit_char (y / 1000)) = true /\ is_digit (digit_char (y / 100 mod 10)) = true /\
+  is_digit (digit_char (y / 10 mod 10)) = true /\ is_digit (digit_char (y mod 10)) = true.
+Proof. intros H. repeat split; apply is_digit_char; lia. Qed.
+
+Lemma simple_year y : 1 <= y <= 9999 -> parse_simple (d4 y) = Ok (Year, (y, 1, 1), 1).
+Proof.
+  intros H. destruct (d4_digit_hyps y ltac:(lia)) as (A & B & C & D).
+  unfold d4. rewrite shape_year by assumption. rewrite num4_d4 by lia.
+  assert (y =? 0 = false) as -> by lia. reflexivity.
+Qed.
+
+Lemma simple_month y m : 0 <= y <= 9999 -> 1 <= m <= 12 ->
+  parse_simple (d4 y ++ "-" ++ d2 m) = bind (pendulum_ymd y m 1) (fun i => Ok (Month, i, 1)).
+Proof.
+  intros H Hm. destruct (d4_digit_hyps y ltac:(lia)) as (A & B & C & D).
+  unfold d4, d2. cbn [append]. rewrite shape_month; try assumption.
+  - rewrite num4_d4, num2_d2 by lia. reflexivity.
+  - rewrite re_month_d2 by lia. lia.
+Qed.
+
+Lemma simple_day y m d : 0 <= y <= 9999 -> 1 <= m <= 12 -> 1 <= d <= 31 ->
+  parse_simple (d4 y ++ "-" ++ d2 m ++ "-" ++ d2 d) = bind (pendulum_ymd y m d) (fun i => Ok (Day, i, 1)).
+Proof.
+  intros H Hm Hd. destruct (d4_digit_hyps y ltac:(lia)) as (A & B & C & D).
+  unfold d4, d2. cbn [append]. rewrite shape_day; try assumption.
+  - rewrite num4_d4, !num2_d2 by lia. reflexivity.
+  - rewrite re_month_d2 by lia. lia.
+  - rewrite re_day_d2 by lia. lia.
+Qed.
+
+Lemma simple_week cy w : 0 <= cy <= 9999 -> 1 <= w <= 53 ->
+  parse_simple (d4 cy ++ "-" ++ String "W" (d2 w)) = bind (pendulum_week_date cy w 1) (fun i => Ok (Week, i, 1)).
+Proof.
+  intros H Hw. destruct (d4_digit_hyps cy ltac:(lia)) as (A & B & C & D).
+  unfold d4, d2. cbn [append]. rewrite shape_week; try assumption.
+  - rewrite num4_d4, num2_d2 by lia. reflexivity.
+  - rewrite re_week_d2 by lia. lia.
+Qed.
+
+Lemma simple_weekday cy w wd : 0 <= cy <= 9999 -> 1 <= w <= 53 -> 1 <= wd <= 7 ->
+  parse_simple (d4 cy ++ "-" ++ String "W" (d2 w) ++ "-" ++ String (digit_char wd) "") =
+  bind (pendulum_week_date cy w wd) (fun i => Ok (Weekday, i, 1)).
+Proof.
+  intros H Hw Hwd. destruct (d4_digit_hyps cy ltac:(lia)) as (A & B & C & D).
+  unfold d4, d2. cbn [append]. rewrite shape_weekday; try assumption.
+  - rewrite num4_d4, num2_d2, dv_char by lia. reflexivity.
+  - rewrite re_week_d2 by lia. lia.
+  - rewrite re_weekday_char by lia. lia.
+Qed.
+
+Lemma unit_name_colon_free u : colon_free (unit_name u).
+Proof. destruct u; reflexivity. Qed.
+
+Lemma unit_of_name_name u : unit_of_name (unit_name u) = Some u.
+Proof. destruct u; reflexivity. Qed.
+
+Definition size_fields (sz : option Z) : list string :=
+  match sz with None => [] | Some n => [show_Z n] end.
+Definition size_value (sz : option Z) : Z := match sz with None => 1 | Some n => n end.
+
+Lemma parse_long_ok u body q sz :
+  u <> Eternity -> parse_simple body = Ok q -> unit_weight u <? unit_weight (p_unit q) = false ->
+  parse_period (join_colon (unit_name u :: body :: size_fields sz)) = Ok (u, p_start q, size_value sz).
+Proof.
+  intros Hu Hq Hw. pose proof (parse_simple_ok_instant _ _ Hq) as Hi.
+  rewrite parse_period_long.
+  - rewrite Hi. unfold period_of_components. rewrite unit_of_name_name, Hq. cbn [bind].
+    destruct sz as [n|]; cbn [size_fields size_value].
+    + rewrite py_int_show_Z. cbn [bind]. rewrite Hw. destruct u; congruence.
+    + cbn [bind]. rewrite Hw. destruct u; congruence.
+  - constructor; [apply unit_name_colon_free|]. constructor; [apply instant_no_colon, Hi|].
+    destruct sz; cbn [size_fields]; [|constructor]. constructor; [apply show_Z_no_colon|constructor].
+Qed.
+
+(** * Round trip *)
+
+Definition t_ym (y m : Z) : string := d4 y ++ "-" ++ d2 m.
+Definition t_ymd (y m d : Z) : string := t_ym y m ++ "-" ++ d2 d.
+Definition t_yw (cy w : Z) : string := d4 cy ++ "-" ++ String "W" (d2 w).
+Definition t_ywd (cy w wd : Z) : string := t_yw cy w ++ "-" ++ String (digit_char wd) "".
+
+Lemma parse_simple_period s q : parse_simple s = Ok q -> parse_period s = Ok q.
+Proof.
+  intros H. rewrite parse_period_simple; [assumption|]. eapply parse_simple_ok_instant, H.
+Qed.
+
+Lemma py_date_ok_valid y m d : valid (y, m, d) -> y <= 9999 -> py_date_ok (y, m, d) = true.
+Proof. intros H Hy. unfold py_date_ok. unfold valid in H. rewrite H. lia. Qed.
+
+Lemma body_month y m d : valid (y, m, d) -> y <= 9999 ->
+  parse_simple (t_ym y m) = Ok (Month, (y, m, 1), 1).
+Proof.
+  intros Hv Hy. destruct (valid_bounds _ _ _ Hv) as (Hy1 & Hm & _).
+  unfold t_ym. rewrite simple_month by lia. unfold pendulum_ymd. rewrite (valid_first _ _ _ Hv). reflexivity.
+Qed.
+
+Lemma body_day y m d : valid (y, m, d) -> y <= 9999 ->
+  parse_simple (t_ymd y m d) = Ok (Day, (y, m, d), 1).
+Proof.
+  intros Hv Hy. destruct (valid_bounds _ _ _ Hv) as (Hy1 & Hm & Hd).
+  change (t_ymd y m d) with (d4 y ++ "-" ++ d2 m ++ "-" ++ d2 d).
+  rewrite simple_day by lia. unfold pendulum_ymd. unfold valid in Hv. rewrite Hv. reflexivity.
+Qed.
+
+Lemma body_week y m d cy w wd : valid (y, m, d) -> y <= 9999 -> 0 <= cy <= 9999 ->
+  isocalendar (y, m, d) = (cy, w, wd) -> wd = 1 ->
+  parse_simple (t_yw cy w) = Ok (Week, (y, m, d), 1).
+Proof.
+  intros Hv Hy Hcy Hi ->. destruct (isocalendar_spec _ _ _ Hv _ _ _ Hi) as (_ & Hw & Hw53 & _).
+  unfold t_yw. rewrite simple_week by lia.
+  rewrite (week_date_of_isocalendar _ _ _ _ _ _ Hv Hy Hi). reflexivity.
+Qed.
+
+Lemma body_weekday y m d cy w wd : valid (y, m, d) -> y <= 9999 -> 0 <= cy <= 9999 ->
+  isocalendar (y, m, d) = (cy, w, wd) ->
+  parse_simple (t_ywd cy w wd) = Ok (Weekday, (y, m, d), 1).
+Proof.
+  intros Hv Hy Hcy Hi. destruct (isocalendar_spec _ _ _ Hv _ _ _ Hi) as (_ & Hw & Hw53 & Hwd & _).
+  change (t_ywd cy w wd) with (d4 cy ++ "-" ++ String "W" (d2 w) ++ "-" ++ String (digit_char wd) "").
+  rewrite simple_weekday by lia.
+  rewrite (week_date_of_isocalendar _ _ _ _ _ _ Hv Hy Hi). reflexivity.
+Qed.
+
+Definition rt (p : period) : Prop :=
+  exists s, show_period p = Ok s /\ parse_period s = Ok (canon p) /\ show_period (canon p) = Ok s.
+
+Lemma rt_year y m n : valid (y, m, 1) -> 1000 <= y <= 9999 -> 0 < n -> rt (Year, (y, m, 1), n).
+Proof.
+  intros Hv Hy Hn. destruct (valid_bounds _ _ _ Hv) as (_ & Hm & _).
+  unfold rt. change (canon (Year, (y, m, 1), n)) with (Year, (y, m, 1), n).
+  unfold show_period. rewrite (py_date_ok_valid _ _ _ Hv) by lia. cbn [negb].
+  destruct (isocalendar (y, m, 1)) as [[cy w] wd].
+  cbn [unit_eqb andb orb]. rewrite show_Z_4, pad2_spec by lia.
+  pose proof (body_month _ _ _ Hv ltac:(lia)) as Bm.
+  pose proof (simple_year y ltac:(lia)) as By.
+  destruct (n =? 1) eqn:En; destruct (m =? 1) eqn:Em.
+  - assert (n = 1) by lia. assert (m = 1) by lia. subst n m.
+    eexists. split; [reflexivity|]. split; [|reflexivity]. apply parse_simple_period. exact By.
+  - assert (n = 1) by lia. subst n.
+    eexists. split; [reflexivity|]. split; [|reflexivity].
+    exact (parse_long_ok Year (t_ym y m) _ None ltac:(discriminate) Bm eq_refl).
+  - assert (m = 1) by lia. subst m.
+    eexists. split; [reflexivity|]. split; [|reflexivity].
+    exact (parse_long_ok Year (d4 y) _ (Some n) ltac:(discriminate) By eq_refl).
+  - eexists. split; [reflexivity|]. split; [|reflexivity].
+    exact (parse_long_ok Year (t_ym y m) _ (Some n) ltac:(discriminate) Bm eq_refl).
+Qed.
+
+Lemma rt_month y m n : valid (y, m, 1) -> 1000 <= y <= 9999 -> 0 < n -> rt (Month, (y, m, 1), n).
+Proof.
+  intros Hv Hy Hn. destruct (valid_bounds _ _ _ Hv) as (_ & Hm & _).
+  unfold rt, canon. cbn [unit_eqb andb].
+  pose proof (body_month _ _ _ Hv ltac:(lia)) as Bm.
+  pose proof (simple_year y ltac:(lia)) as By.
+  destruct (n =? 12) eqn:E12.
+  - assert (n = 12) by lia. subst n.
+    unfold show_period. rewrite (py_date_ok_valid _ _ _ Hv) by lia. cbn [negb].
+    destruct (isocalendar (y, m, 1)) as [[cy w] wd].
+    cbn [unit_eqb andb orb Z.eqb Pos.eqb]. rewrite show_Z_4, pad2_spec by lia.
+    destruct (m =? 1) eqn:Em.
+    + assert (m = 1) by lia. subst m.
+      eexists. split; [reflexivity|]. split; [|reflexivity]. apply parse_simple_period. exact By.
+    + eexists. split; [reflexivity|]. split; [|reflexivity].
+      exact (parse_long_ok Year (t_ym y m) _ None ltac:(discriminate) Bm eq_refl).
+  - unfold show_period. rewrite (py_date_ok_valid _ _ _ Hv) by lia. cbn [negb].
+    destruct (isocalendar (y, m, 1)) as [[cy w] wd].
+    cbn [unit_eqb andb orb]. rewrite E12. cbn [orb]. rewrite show_Z_4, pad2_spec by lia.
+    destruct (n =? 1) eqn:E1.
+    + assert (n = 1) by lia. subst n.
+      eexists. split; [reflexivity|]. split; [|reflexivity]. apply parse_simple_period. exact Bm.
+    + eexists. split; [reflexivity|]. split; [|reflexivity].
+      exact (parse_long_ok Month (t_ym y m) _ (Some n) ltac:(discriminate) Bm eq_refl).
+Qed.
+
+Lemma rt_day y m d n : valid (y, m, d) -> 1000 <= y <= 9999 -> 0 < n -> rt (Day, (y, m, d), n).
+Proof.
+  intros Hv Hy Hn. destruct (valid_bounds _ _ _ Hv) as (_ & Hm & Hd).
+  unfold rt. change (canon (Day, (y, m, d), n)) with (Day, (y, m, d), n).
+  pose proof (body_day _ _ _ Hv ltac:(lia)) as Bd.
+  unfold show_period. rewrite (py_date_ok_valid _ _ _ Hv) by lia. cbn [negb].
+  destruct (isocalendar (y, m, d)) as [[cy w] wd].
+  cbn [unit_eqb andb orb]. rewrite show_Z_4, !pad2_spec by lia.
+  destruct (n =? 1) eqn:E1.
+  - assert (n = 1) by lia. subst n.
+    eexists. split; [reflexivity|]. split; [|reflexivity]. apply parse_simple_period. exact Bd.
+  - eexists. split; [reflexivity|]. split; [|reflexivity].
+    exact (parse_long_ok Day (t_ymd y m d) _ (Some n) ltac:(discriminate) Bd eq_refl).
+Qed.
+
+Lemma rt_week y m d n : valid (y, m, d) -> 1000 <= y <= 9999 -> 0 < n -> isoweekday (y, m, d) = 1 ->
+  rt (Week, (y, m, d), n).
+Proof.
+  intros Hv Hy Hn Hmon.
+  unfold rt. change (canon (Week, (y, m, d), n)) with (Week, (y, m, d), n).
+  unfold show_period. rewrite (py_date_ok_valid _ _ _ Hv) by lia. cbn [negb].
+  destruct (isocalendar (y, m, d)) as [[cy w] wd] eqn:Hi.
+  pose proof (isocalendar_year_range _ _ _ _ _ _ Hv Hy Hi) as Hcy.
+  destruct (isocalendar_spec _ _ _ Hv _ _ _ Hi) as (_ & Hw & Hw53 & _ & Hwd & _).
+  assert (wd = 1) as Hwd1 by congruence.
+  pose proof (body_week y m d cy w wd Hv ltac:(lia) ltac:(lia) Hi Hwd1) as Bw.
+  cbn [unit_eqb andb orb]. rewrite (show_Z_4 cy), week_text_spec by lia.
+  destruct (n =? 1) eqn:E1.
+  - assert (n = 1) by lia. subst n.
+    eexists. split; [reflexivity|]. split; [|reflexivity]. apply parse_simple_period. exact Bw.
+  - assert (1 <? n = true) as -> by lia.
+    eexists. split; [reflexivity|]. split; [|reflexivity].
+    exact (parse_long_ok Week (t_yw cy w) _ (Some n) ltac:(discriminate) Bw eq_refl).
+Qed.
+
+Lemma rt_weekday y m d n : valid (y, m, d) -> 1000 <= y <= 9999 -> 0 < n -> rt (Weekday, (y, m, d), n).
+Proof.
+  intros Hv Hy Hn.
+  unfold rt. change (canon (Weekday, (y, m, d), n)) with (Weekday, (y, m, d), n).
+  unfold show_period. rewrite (py_date_ok_valid _ _ _ Hv) by lia. cbn [negb].
+  destruct (isocalendar (y, m, d)) as [[cy w] wd] eqn:Hi.
+  pose proof (isocalendar_year_range _ _ _ _ _ _ Hv Hy Hi) as Hcy.
+  destruct (isocalendar_spec _ _ _ Hv _ _ _ Hi) as (_ & Hw & Hw53 & Hwd & _).
+  pose proof (body_weekday y m d cy w wd Hv ltac:(lia) ltac:(lia) Hi) as Bw.
+  cbn [unit_eqb andb orb]. rewrite (show_Z_4 cy), week_text_spec, (show_Z_1 wd) by lia.
+  destruct (n =? 1) eqn:E1.
+  - assert (n = 1) by lia. subst n.
+    eexists. split; [reflexivity|]. split; [|reflexivity]. apply parse_simple_period. exact Bw.
+  - assert (1 <? n = true) as -> by lia.
+    eexists. split; [reflexivity|]. split; [|reflexivity].
+    exact (parse_long_ok Weekday (t_ywd cy w wd) _ (Some n) ltac:(discriminate) Bw eq_refl).
+Qed.
+
+Lemma rt_claimed p : claimed p -> rt p.
+Proof.
+  destruct p as [[u [[y m] d]] n]. unfold claimed. cbn [p_unit p_start p_size fst snd].
+  destruct u; cbn [aligned].
+  - intros (Hv & Hy & Hn & _). apply rt_weekday; assumption.
+  - intros (Hv & Hy & Hn & Ha). apply rt_week; assumption.
+  - intros (Hv & Hy & Hn & _). apply rt_day; assumption.
+  - intros (Hv & Hy & Hn & ->). apply rt_month; assumption.
+  - intros (Hv & Hy & Hn & ->). apply rt_year; assumption.
+  - intros ->. exists "ETERNITY". repeat split; reflexivity.
+Qed.
+
+(** * The theorems of C05 *)
+
+Lemma period_roundtrip_lemma p : claimed p ->
+  exists s q, show_period p = Ok s /\ parse_period s = Ok q /\ show_period q = Ok s /\
+    p_start q = p_start p /\ stop q = stop p /\ days q = days p /\
+    (if unit_eqb (p_unit p) Month && (p_size p =? 12) then p_unit q = Year /\ p_size q = 1 else q = p).
+Proof.
+  intros Hc. destruct (rt_claimed p Hc) as (s & H1 & H2 & H3). exists s, (canon p).
+  repeat (split; [assumption|]). clear. destruct p as [[u s0] n]. unfold canon.
+  cbn [p_unit p_start p_size fst snd].
+  destruct (unit_eqb u Month && (n =? 12)) eqn:E; [|auto].
+  apply andb_prop in E. destruct E as [Eu En]. destruct u; try discriminate Eu.
+  assert (n = 12) by lia. subst n. repeat split; reflexivity.
+Qed.
+
+Lemma show_injective_lemma p q : claimed p -> claimed q -> p_unit p = p_unit q ->
+  show_period p = show_period q -> p = q.
+Proof.
+  intros Hp Hq Hu Hs.
+  destruct (rt_claimed p Hp) as (s1 & A1 & A2 & _). destruct (rt_claimed q Hq) as (s2 & B1 & B2 & _).
+  assert (s1 = s2) by congruence. subst s2. assert (canon p = canon q) as Hc by congruence.
+  clear - Hu Hc. destruct p as [[u s] n], q as [[u' s'] n']. cbn in Hu. subst u'. unfold canon in Hc.
+  destruct (unit_eqb u Month && (n =? 12)) eqn:E1; destruct (unit_eqb u Month && (n' =? 12)) eqn:E2.
+  - apply andb_prop in E1, E2. assert (n = 12) by lia. assert (n' = 12) by lia. congruence.
+  - apply andb_prop in E1. destruct E1 as [E1 _]. destruct u; try discriminate E1. inversion Hc.
+  - apply andb_prop in E2. destruct E2 as [E2 _]. destruct u; try discriminate E2. inversion Hc.
+  - assumption.
+Qed.
+
+Lemma parse_simple_instant s q : parse_simple s = Ok q -> parse_instant s = Ok (p_start q).
+Proof.
+  unfold parse_simple. destruct (parse_instant s); cbn; [|discriminate].
+  destruct (parse_unit s); cbn; [|discriminate]. intros H. inversion H. reflexivity.
+Qed.
+
+Lemma iso_text_spec y m d : 0 <= y <= 9999 -> 0 <= m <= 99 -> 0 <= d <= 99 -> iso_text y m d = t_ymd y m d.
+Proof.
+  intros. unfold iso_text. rewrite pad4_spec, !pad2_spec by lia. reflexivity.
+Qed.
+
+Lemma instant_roundtrip_lemma y m d : valid (y, m, d) -> y <= 9999 ->
+  show_instant (y, m, d) = Ok (iso_text y m d) /\ parse_instant (iso_text y m d) = Ok (y, m, d).
+Proof.
+  intros Hv Hy. destruct (valid_bounds _ _ _ Hv) as (Hy1 & Hm & Hd). split.
+  - unfold show_instant. rewrite (py_date_ok_valid _ _ _ Hv Hy). reflexivity.
+  - rewrite iso_text_spec by lia. apply (parse_simple_instant _ _ (body_day _ _ _ Hv Hy)).
+Qed.
+
+(** ** Rejections *)
+
+Lemma parse_period_plain s : colon_free s -> (lower s =? "eternity")%string = false ->
+  parse_period s = if is_instant_str s then parse_simple s else Err EPeriod.
+Proof.
+  intros Hc He. unfold parse_period. change (unit_name Eternity) with "eternity". rewrite He.
+  destruct (is_instant_str s); [reflexivity|]. unfold is_period_str. rewrite Hc. reflexivity.
+Qed.
+
+Lemma parse_simple_err_not_instant s : is_instant_str s = false -> parse_simple s = Err EPeriod.
+Proof. intros H. unfold parse_simple, parse_instant. rewrite H. reflexivity. Qed.
+
+(* a date text that does not parse is rejected on its own ... *)
+Lemma rejected_plain s e : colon_free s -> (lower s =? "eternity")%string = false ->
+  parse_simple s = Err e -> rejected s.
+Proof.
+  intros Hc He Hp. unfold rejected. rewrite parse_period_plain by assumption.
+  destruct (is_instant_str s); eauto.
+Qed.
+
+(* ... and inside "unit:date[:size...]" whatever the other fields are *)
+Lemma rejected_long u body rest e : Forall colon_free (u :: body :: rest) ->
+  parse_simple body = Err e -> rejected (join_colon (u :: body :: rest)).
+Proof.
+  intros Hf Hp. unfold rejected. rewrite parse_period_long by assumption.
+  destruct (is_instant_str body); [|eauto].
+  unfold period_of_components. destruct (unit_of_name u) as [[]|]; rewrite ?Hp; cbn [bind]; eauto.
+Qed.
+
+Lemma instant_str_ymd a b c d m1 m2 d1 d2 :
+  is_digit a = true -> is_digit b = true -> is_digit c = true -> is_digit d = true ->
+  is_digit m1 = true -> is_digit m2 = true -> is_digit d1 = true -> is_digit d2 = true ->
+  is_instant_str (String a (String b (String c (String d (String "-" (String m1 (String m2
+                  (String "-" (String d1 (String d2 "")))))))))) = re_month m1 m2 && re_day d1 d2.
+Proof.
+  intros Ha Hb Hc Hd Hm1 Hm2 Hd1 Hd2.
+  dfacts Ha. dfacts Hb. dfacts Hc. dfacts Hd. dfacts Hm1. dfacts Hm2. dfacts Hd1. dfacts Hd2.
+  unfold is_instant_str. repeat shape_step. rewrite orb_false_r.
+  destruct (re_month m1 m2); reflexivity.
+Qed.
+
+Lemma impossible_date_unparsable y m d : 0 <= y <= 9999 -> 0 <= m <= 99 -> 0 <= d <= 99 ->
+  validb (y, m, d) = false -> parse_simple (iso_text y m d) = Err EPeriod.
+Proof.
+  intros Hy Hm Hd Hv. rewrite iso_text_spec by lia.
+  destruct ((1 <=? m) && (m <=? 12) && ((1 <=? d) && (d <=? 31))) eqn:E.
+  - change (t_ymd y m d) with (d4 y ++ "-" ++ d2 m ++ "-" ++ d2 d).
+    rewrite simple_day by lia. unfold pendulum_ymd. rewrite Hv. reflexivity.
+  - apply parse_simple_err_not_instant.
+    destruct (d4_digit_hyps y ltac:(lia)) as (A & B & C & D).
+    change (t_ymd y m d) with (d4 y ++ "-" ++ d2 m ++ "-" ++ d2 d). unfold d4, d2. cbn [append].
+    rewrite instant_str_ymd; try assumption; try (apply is_digit_char; lia).
+    rewrite re_month_d2, re_day_d2 by lia. exact E.
+Qed.
+
+Lemma week_beyond_unparsable y w : 0 <= y <= 9999 -> 1 <= w <= 53 -> weeks_in_iso_year y < w ->
+  parse_simple (t_yw y w) = Err EPeriod /\
+  forall wd, 1 <= wd <= 7 -> parse_simple (t_ywd y w wd) = Err EPeriod.
+Proof.
+  intros Hy Hw Hlt. split.
+  - unfold t_yw. rewrite simple_week by lia. unfold pendulum_week_date.
+    assert (weeks_in_iso_year y <? w = true) as -> by lia. reflexivity.
+  - intros wd Hwd.
+    change (t_ywd y w wd) with (d4 y ++ "-" ++ String "W" (d2 w) ++ "-" ++ String (digit_char wd) "").
+    rewrite simple_weekday by lia. unfold pendulum_week_date.
+    assert (weeks_in_iso_year y <? w = true) as -> by lia. reflexivity.
+Qed.
+
+Lemma t_ymd_plain y m d : 0 <= y <= 9999 -> 0 <= m <= 99 -> 0 <= d <= 99 ->
+  colon_free (t_ymd y m d) /\ (lower (t_ymd y m d) =? "eternity")%string = false.
+Proof.
+  intros Hy Hm Hd. destruct (d4_digit_hyps y ltac:(lia)) as (A & B & C & D).
+  assert (is_digit (digit_char (m / 10)) = true) as M1 by (apply is_digit_char; lia).
+  assert (is_digit (digit_char (m mod 10)) = true) as M2 by (apply is_digit_char; lia).
+  assert (is_digit (digit_char (d / 10)) = true) as D1 by (apply is_digit_char; lia).
+  assert (is_digit (digit_char (d mod 10)) = true) as D2 by (apply is_digit_char; lia).
+  change (t_ymd y m d) with (d4 y ++ "-" ++ d2 m ++ "-" ++ d2 d). unfold d4, d2. cbn [append]. split.
+  - unfold colon_free. pose proof A as A'. all_dfacts. cbn [has_char]. rw_chars. reflexivity.
+  - apply not_eternity_digit. assumption.
+Qed.
+
+Lemma t_yw_plain y w : 0 <= y <= 9999 -> 0 <= w <= 99 ->
+  colon_free (t_yw y w) /\ (lower (t_yw y w) =? "eternity")%string = false /\
+  forall wd, 0 <= wd <= 9 ->
+    colon_free (t_ywd y w wd) /\ (lower (t_ywd y w wd) =? "eternity")%string = false.
+Proof.
+  intros Hy Hw. destruct (d4_digit_hyps y ltac:(lia)) as (A & B & C & D).
+  assert (is_digit (digit_char (w / 10)) = true) as M1 by (apply is_digit_char; lia).
+  assert (is_digit (digit_char (w mod 10)) = true) as M2 by (apply is_digit_char; lia).
+  split; [|split].
+  - unfold t_yw, d4, d2. cbn [append]. unfold colon_free. all_dfacts. cbn [has_char]. rw_chars. reflexivity.
+  - unfold t_yw, d4. cbn [append]. apply not_eternity_digit. assumption.
+  - intros wd Hwd. assert (is_digit (digit_char wd) = true) as E by (apply is_digit_char; lia).
+    change (t_ywd y w wd) with (d4 y ++ "-" ++ String "W" (d2 w) ++ "-" ++ String (digit_char wd) "").
+    unfold d4, d2. cbn [append]. split.
+    + unfold colon_free. pose proof A as A'. all_dfacts. cbn [has_char]. rw_chars. reflexivity.
+    + apply not_eternity_digit. assumption.
+Qed.
